@@ -25,6 +25,8 @@ func init() {
 			ruleNameCleaned(c, "R5")
 			ruleParamLookupCommaOk(c, "R4")
 			ruleRegexpQuoting(c, "R2c")
+			ruleInterceptorShorthands(c, "R7")
+			ruleRequestPathIsMatched(c, "R8")
 			ruleSearchTriesEverySibling(c, "R6", []*ssa.Function{c.A.TreeURL}, "strict URL building succeeds for every live route: the route lookup tries every sibling")
 		},
 	})
